@@ -128,6 +128,7 @@ static JanetAssembler as_parent;
 static JanetFuncDef as_pdef;
 static int as_nested;
 
+static int32_t as_listcount(int k) { return (as_field[k].type == JANET_ARRAY || as_field[k].type == JANET_TUPLE) ? as_lists[k].count : 0; }
 void *as_gcalloc_stub(enum JanetMemoryType type, size_t size) {
     __CPROVER_assert(as_def == (void *) 0 && size == sizeof(JanetFuncDef), "asm1: one definition is allocated per call");
     as_def = malloc(sizeof(JanetFuncDef));
@@ -240,6 +241,10 @@ int as_verify_stub(JanetFuncDef *def) {
     __CPROVER_assert(def->symbolmap_length >= 0 && (def->symbolmap_length == 0 || __CPROVER_r_ok(def->symbolmap, sizeof(JanetSymbolMap) * (size_t) def->symbolmap_length)),
                      "asm1: symbolmap is a block of symbolmap_length entries");
     __CPROVER_assert(def->closure_bitset == (void *) 0, "asm1: no closure bitset is claimed");
+    __CPROVER_assert(def->constants_length == as_listcount(K_CONSTANTS) && def->environments_length == as_listcount(K_ENVIRONMENTS) &&
+                     def->symbolmap_length == as_listcount(K_SYMBOLMAP) &&
+                     def->defs_length == (as_field[K_CLOSURES].type != JANET_NIL ? as_listcount(K_CLOSURES) : as_listcount(K_DEFS)),
+                     "asm1: constants, environments, symbol map and nested definitions have the lengths of the description's lists");
     as_snap = *def;
     as_verdict = nd_int();
     return as_verdict;
